@@ -11,6 +11,11 @@ connection ids = creation order); queries and files are opaque tokens (the harne
   `search src carrier code unknown user ticket q`
         src = `s` (server connection) | connection id;  carrier = `server` | `dist` | `legacy`
         status `ok` | `no-server` | `no-conn` | `bad-op` (carrier/source mismatch, unparsable)
+  `addbegin n`   peer n connects as a would-be child, `_add_child` runs up to its suspension (`SOp.addBegin`)
+  `addend`       every suspended add resumes (`SOp.addEnd`)
+  `addtimeout`   the sends of every suspended add hit the write time-out: the library closes the connection
+                 (`Op.closed`), then the add resumes with the error (`SOp.addEnd`)
+  `pconn n`      user n opens a peer connection to us: no effect on the tree or on what is written     → `ok`
 Every op line answers
   `<status> F=<conn:unknown:user:ticket:q;…> R=<to:ticket:username:v,v…:l,l…;…> E=<user:q:count;…> P=<parent> C=<children> L=<live>`
 (`-` for empty); `props/c14.py:_canon` renders the implementation's observations the same way.
@@ -19,7 +24,7 @@ open AioslskVerif.Dist
 open AioslskVerif.DistSearch
 
 structure DS where
-  s : DState
+  s : SState
   table : List ((Nat × String) × (List String × List String))
   blockedL : List Nat
 
@@ -49,53 +54,56 @@ def render (s : DState) (outs : List Out) (ev : Option (Nat × String × Nat)) :
 
 def nats (ws : List String) : Option (List Nat) := ws.mapM String.toNat?
 
-def withServer (s : DState) (ops : List Op) : DState × String :=
-  if s.session.isSome then (ops.foldl step s, "ok") else (s, "no-server")
+/-- tree ops of one line and the status; an empty list with a status other than `ok` = refused -/
+def withServer (s : DState) (ops : List Op) : List Op × String :=
+  if s.session.isSome then (ops, "ok") else ([], "no-server")
 
-def withConn (s : DState) (c : Nat) (op : Op) : DState × String :=
-  if c ∈ s.live then (step s op, "ok") else (s, "no-conn")
+def withConn (s : DState) (c : Nat) (op : Op) : List Op × String :=
+  if c ∈ s.live then ([op], "ok") else ([], "no-conn")
 
 /-- tree ops: identical to `Driver/C13.lean` -/
-def handleTree (s : DState) (ws : List String) : DState × String :=
+def treeLine (s : DState) (ws : List String) : List Op × String :=
   match ws with
   | ["session"] =>
-    if s.session.isSome then (s, "already")
-    else ([Op.serverStateChange, Op.sessionInit 0].foldl step s, "ok")
+    if s.session.isSome then ([], "already")
+    else ([Op.serverStateChange, Op.sessionInit 0], "ok")
   | ["lost"] => withServer s [.serverStateChange, .sessionDestroyed]
   | "pp" :: ws =>
     match nats ws with
     | some ns => withServer s (Op.potentialParents ns :: ns.map (fun n => Op.initialized n true))
-    | none => (s, "bad-op")
+    | none => ([], "bad-op")
   | ["in", n] =>
     match n.toNat? with
-    | some n => (step s (.initialized n false), "ok")
-    | none => (s, "bad-op")
+    | some n => ([.initialized n false], "ok")
+    | none => ([], "bad-op")
   | ["level", c, v] =>
     match c.toNat?, v.toNat? with
     | some c, some v => withConn s c (.level c v)
-    | _, _ => (s, "bad-op")
+    | _, _ => ([], "bad-op")
   | ["root", c, n] =>
     match c.toNat?, n.toNat? with
     | some c, some n => withConn s c (.root c n)
-    | _, _ => (s, "bad-op")
+    | _, _ => ([], "bad-op")
   | ["close", c] =>
     match c.toNat? with
     | some c => withConn s c (.closed c)
-    | none => (s, "bad-op")
+    | none => ([], "bad-op")
   | ["minspeed", v] =>
     match v.toNat? with
     | some v => withServer s [.minSpeed v]
-    | none => (s, "bad-op")
+    | none => ([], "bad-op")
   | ["ratio", v] =>
     match v.toNat? with
     | some v => withServer s [.speedRatio v]
-    | none => (s, "bad-op")
+    | none => ([], "bad-op")
   | ["stats", n, v] =>
     match n.toNat?, v.toNat? with
     | some n, some v => withServer s [.userStats n v]
-    | _, _ => (s, "bad-op")
+    | _, _ => ([], "bad-op")
   | ["reset"] => withServer s [.resetDistributed]
-  | _ => (s, "bad-op")
+  | _ => ([], "bad-op")
+
+def applyS (env : Env) (st : SState) (ops : List SOp) : SState := ops.foldl (stepS env) st
 
 def parseCarrier (src carrier : String) (code unk : Nat) : Option Carrier :=
   match carrier, src with
@@ -108,7 +116,7 @@ def files (w : String) : List String := if w == "-" then [] else w.splitOn ","
 
 def handleLine (d : DS) (line : String) : DS × String :=
   match (line.splitOn " ").filter (· ≠ "") with
-  | ["new"] => (⟨init, [], []⟩, "new")
+  | ["new"] => (⟨SState.init, [], []⟩, "new")
   | ["ans", u, q, vl] =>
     match u.toNat?, vl.splitOn "|" with
     | some u, [v, l] => ({ d with table := ((u, q), (files v, files l)) :: d.table }, "ok")
@@ -123,18 +131,38 @@ def handleLine (d : DS) (line : String) : DS × String :=
       match parseCarrier src carrier code unk with
       | some car =>
         let up : Bool := match src.toNat? with
-          | some c => decide (c ∈ d.s.live)
-          | none => d.s.session.isSome
+          | some c => decide (c ∈ d.s.d.live)
+          | none => d.s.d.session.isSome
         if up then
           let r : Req := ⟨car, user, ticket, q⟩
-          let ev := (received d.env d.s r).map (fun n => (user, q, n))
-          (d, s!"ok {render d.s (handle d.env d.s r) ev}")
-        else (d, (if src == "s" then "no-server " else "no-conn ") ++ render d.s [] none)
-      | none => (d, s!"bad-op {render d.s [] none}")
-    | _, _, _, _ => (d, s!"bad-op {render d.s [] none}")
+          let ev := (received d.env d.s.d r).map (fun n => (user, q, n))
+          let s' := stepS d.env d.s (.search r)
+          -- what was written for this carrier: the entry `stepS` just logged
+          let outs := match s'.log.getLast? with
+            | some e => e.2
+            | none => []
+          ({ d with s := { s' with log := [] } }, s!"ok {render s'.d outs ev}")
+        else (d, (if src == "s" then "no-server " else "no-conn ") ++ render d.s.d [] none)
+      | none => (d, s!"bad-op {render d.s.d [] none}")
+    | _, _, _, _ => (d, s!"bad-op {render d.s.d [] none}")
+  | ["addbegin", n] =>
+    match n.toNat? with
+    | some n =>
+      let s' := stepS d.env d.s (.addBegin n)
+      ({ d with s := s' }, s!"ok {render s'.d [] none}")
+    | none => (d, s!"bad-op {render d.s.d [] none}")
+  | ["addend"] =>
+    let s' := applyS d.env d.s (d.s.adding.map SOp.addEnd)
+    ({ d with s := s' }, s!"ok {render s'.d [] none}")
+  | ["addtimeout"] =>
+    let s' := applyS d.env d.s (d.s.adding.flatMap (fun c => [SOp.tree (.closed c), SOp.addEnd c]))
+    ({ d with s := s' }, s!"ok {render s'.d [] none}")
+  | ["pconn", n] =>
+    (d, (if n.toNat?.isSome then "ok " else "bad-op ") ++ render d.s.d [] none)
   | ws =>
-    let (s', st) := handleTree d.s ws
-    ({ d with s := s' }, s!"{st} {render s' [] none}")
+    let (ops, st) := treeLine d.s.d ws
+    let s' := applyS d.env d.s (ops.map SOp.tree)
+    ({ d with s := s' }, s!"{st} {render s'.d [] none}")
 
 partial def loop (h : IO.FS.Stream) (d : DS) : IO Unit := do
   let line ← h.getLine
@@ -144,4 +172,4 @@ partial def loop (h : IO.FS.Stream) (d : DS) : IO Unit := do
   loop h d'
 
 def main : IO Unit := do
-  loop (← IO.getStdin) ⟨init, [], []⟩
+  loop (← IO.getStdin) ⟨SState.init, [], []⟩
